@@ -129,7 +129,7 @@ def nextafter(x, y):
 def ladder(a, b, tier, rng):
     """interior points approaching each bound on a log-spaced ladder down to 1 ulp, the bounds, interior."""
     w = b - a
-    ks = (1, 2, 4, 7, 10, 13, 16) if tier == "quick" else tuple(range(1, 18))
+    ks = (1, 3, 6, 10, 14, 16) if tier == "quick" else tuple(range(1, 18))
     pts = [a, b, a + w / 2, a + w * 0.3183098861837907, a + w * 0.7071067811865476]
     for k in ks:
         pts.append(a + w * 10.0 ** (-k))
@@ -139,7 +139,7 @@ def ladder(a, b, tier, rng):
         x, y = nextafter(x, b), nextafter(y, a)
         if i in (1, 2, 5):
             pts += [x, y]
-    for _ in range(3 if tier == "quick" else 8):
+    for _ in range(2 if tier == "quick" else 8):
         pts.append(a + w * rng.random())
     out, seen = [], set()
     for p in pts:
@@ -198,6 +198,8 @@ def one_param_configs(name, extra, bounds, chk, gw=False, tests=(None,), with_up
                 outs += [[a - 1e-3 * w, 0.5], [a - 0.37 * w, 0.5]]
             if t != "upper":
                 outs += [[b + 1e-3 * w, 0.5], [b + 0.37 * w, 0.5]]
+            if a > 0:
+                outs = [o for o in outs if o[0] > 0] + ([[a * 0.5, 0.5]] if t != "lower" else [])
             if t != "detect":
                 c["outside"] = outs
             c["label"] = f"{'gw:' if gw else ''}{name}{tag}|{json.dumps(extra, sort_keys=True)}|b={bounds}|upd={'y' if upd else 'n'}|test={t}"
@@ -291,8 +293,13 @@ def gen_configs(chk, reg):
                     inv = rtb_inversion_for(kw, "x") if not predicted_reject(cls, kw) else None
                     tests = ("lower", "upper", False, "detect") if inv else (None,)
                     bsets = BOUNDS if (not var or not quick) else [BOUNDS[1]]
-                    if quick and not (name in ("default", "logit", "inversion", "offset", "log-rescale", "inversion-duplicate", "time", "mass_ratio")):
-                        bsets = [BOUNDS[rng.randrange(len(BOUNDS))]]
+                    if quick and not var:
+                        if name in ("default", "logit", "inversion"):
+                            bsets = BOUNDS
+                        elif name in ("offset", "log-rescale", "inversion-duplicate", "time", "mass_ratio"):
+                            bsets = BOUNDS[:2] + [BOUNDS[2 + rng.randrange(3)]]
+                        else:
+                            bsets = [BOUNDS[rng.randrange(len(BOUNDS))]]
                     for b in bsets:
                         add(one_param_configs(rname, var, b, chk, gw=gw, tests=tests, with_update=rtb_updates(kw)), cls, kw)
                 if name == "default":
@@ -395,8 +402,8 @@ def special_configs(name, rname, cls, kw0, chk, gw):
             for extra, radial in variants:
                 kw = dict(kw0, **extra)
                 sc = angle_scale(kw, b)
-                if extra.get("scale") == 2.0 and b[1] * 2.0 > 2 * PI + 1e-9:
-                    continue
+                if (b[1] - b[0]) * sc > 2 * PI * (1 + 1e-9):
+                    continue   # more than one period: not an angle range for this scale
                 if radial:
                     names = ["x", "r", "y"]
                     bounds = {"x": b, "r": (0.0, 5.0), "y": (0.0, 1.0)}
@@ -489,6 +496,7 @@ def special_configs(name, rname, cls, kw0, chk, gw):
         pts = _pts_for(names, bounds, chk)
         c = make_cfg(names, bounds, reps, pts, gw=gw)
         c["periodic"] = {"phase": 2 * PI}
+        c["reverse"] = True   # the only order CombinedReparameterisation.check_order accepts for a block with requirements
         c["label"] = f"gw:{name}"
         return [(c, dict(kw0))]
     return None
@@ -701,10 +709,14 @@ def observations(c, r, specs):
     """Coq list of obs records, one per output row."""
     n, m = r["n_in"], r["n_out"]
     out = []
+    rowids = []
     radii = c.get("radii") or [1.0]
     for j in range(m):
         i = j % n
         row = c["points"][i]
+        if angle_wrap_row(c, r, i):
+            continue
+        rowids.append(j)
         ins, auxs, xps, xbs = [], [], [], []
         for s in specs:
             vals = []
@@ -729,7 +741,7 @@ def observations(c, r, specs):
             xbs.append(cL(flc(r["xb"][p][j]) for p in s["ins"]))
         out.append(f"{{| o_in := {cL(ins)}; o_aux := {cL(auxs)}; o_xp := {cL(xps)}; o_lj := {flc(r['lj'][j])}; "
                    f"o_xb := {cL(xbs)}; o_ljb := {flc(r['ljb'][j])} |}}")
-    return out
+    return out, rowids
 
 
 COQ_HDR = (common.COQ_HEADER + "From NessaiV Require Import Lib.C07_Interval Model.C07_Maps Run.C07_run.\n"
@@ -919,7 +931,7 @@ def tie_a(chk, reg, sigs, rf):
 
 
 def decide(chk, cfgs, res):
-    items, meta = [], {}
+    items, meta, rowmap = [], {}, {}
     n_points = 0
     for idx, (c, r) in enumerate(zip(cfgs, res)):
         chk.count("class:" + c.get("cls", "?"))
@@ -943,7 +955,9 @@ def decide(chk, cfgs, res):
             meta[idx] = None
             chk.evaluations += r["n_out"]
             continue
-        obs = observations(c, r, specs)
+        obs, rowids = observations(c, r, specs)
+        rowmap[idx] = rowids
+        chk.count("rows-decided-by-direct-predicate-only(angle wrap region)", r["n_out"] - len(obs))
         items.append((idx, cL(terms), obs, prime_bound_evals(c, r)))
         n_points += len(obs)
     results, errors, prime_results = run_coq_batches(chk, items)
@@ -967,7 +981,7 @@ def decide(chk, cfgs, res):
             for k, v in enumerate(verdict):
                 hist[(k, v)] = hist.get((k, v), 0) + 1
                 if v == 0:
-                    bad[k].append((idx, j))
+                    bad[k].append((idx, rowmap[idx][j]))
             if 1 in verdict and 0 not in verdict:
                 chk.nontriv((c["label"], j))
     for k in range(4):
@@ -1004,16 +1018,25 @@ def outside_fold(c, r, p, row):
     return False
 
 
+def angle_wrap_row(c, r, i):
+    """the inverse branch arctan2 / scale covers (-pi, pi] only: lower bound <> 0 and scaled angle beyond it
+    (Theorem C07_angle_wrap_refuted); such rows are decided by the direct predicate alone, so that repairing the
+    defect does not break the correspondence"""
+    if c.get("cls") != "Angle":
+        return False
+    for bd in r.get("blocks", []):
+        if bd["class"] == "Angle" and not bd.get("zero_bound", True):
+            p = bd["parameters"][0]
+            v = c["points"][i][c["names"].index(p)] * bd["scale"]
+            if v > PI or v < -PI:
+                return True
+    return False
+
+
 def finding_key(c, r, suffix, i, key):
     """Semantic identity of a failing input (used to match known findings)."""
-    if suffix.startswith("roundtrip") and i is not None and c.get("cls") == "Angle":
-        for bd in r.get("blocks", []):
-            if bd["class"] == "Angle" and not bd.get("zero_bound", True):
-                p = bd["parameters"][0]
-                v = c["points"][i][c["names"].index(p)] * bd["scale"]
-                if v > PI or v < -PI:
-                    # the inverse branch arctan2 / scale covers (-pi, pi] only; lower bound <> 0 and scaled angle beyond it
-                    return "C07:angle-inverse-wrap"
+    if suffix.startswith("roundtrip") and i is not None and angle_wrap_row(c, r, i):
+        return "C07:angle-inverse-wrap"
     if (suffix.startswith("roundtrip") or suffix == "logj-sum") and i is not None:
         if any(outside_fold(c, r, p, c["points"][i]) for p in c["names"]):
             # outside the range of the data given to update(), on the side an inversion edge folds at
